@@ -235,6 +235,9 @@ func (i *Iterator) autoNext(ctx context.Context) bool {
 	i.reset(i.view.BoundBy(i.bounds))
 
 	nRemaining := i.AutoChunkSize
+	if !i.internal.SeekGE(ctx, i.view.Start) {
+		return false
+	}
 	for {
 		if !i.internal.TimeRange().OverlapsWith(i.view) {
 			if !i.internal.Next() {
@@ -296,6 +299,9 @@ func (i *Iterator) autoPrev(ctx context.Context) bool {
 	i.view.Start = startApprox.Lower + 1
 	i.reset(i.view.BoundBy(i.bounds))
 	nRemaining := i.AutoChunkSize
+	if !i.internal.SeekLE(ctx, i.view.End-1) {
+		return false
+	}
 	for {
 		if !i.internal.TimeRange().OverlapsWith(i.view) {
 			if !i.internal.Prev() {
